@@ -112,6 +112,20 @@ def check_hierarchy(spec, ctx):
                 ctx.fail(clause + ":by_sequence_noncontiguous_accepted")
             except ValueError:
                 pass
+    # a second location built on the very same Parent OBJECT as the first, same coordinates, other strand (the antisense of a
+    # feature): it lifts to the same bases on the opposite strand, whatever the first one left on that Parent
+    if len(rm.sorted_blocks(C["blocks"])) == 1 and C["strand"] in "+-":
+        from inscripta.biocantor.location.location_impl import SingleInterval as _SI
+        b0 = rm.sorted_blocks(C["blocks"])[0]
+        first = _SI(b0[0], b0[1], STRAND[C["strand"]], parent=lowest)
+        anti = _SI(first.start, first.end, first.strand.reverse(), parent=first.parent)
+        for target in range(d, -1, -1):
+            exp_pos, exp_strand = compose_down(rm.positions([b0], rm.flip(C["strand"])), rm.flip(C["strand"]), maps, strands, d, target)
+            la = anti.lift_over_to_first_ancestor_of_type(TYPES[target])
+            ctx.eq("antisense_on_same_parent_object[d=%d->%d]:positions" % (d, target), rm.loc_positions(la), exp_pos)
+            ctx.eq("antisense_on_same_parent_object[d=%d->%d]:strand" % (d, target), rm.loc_strand(la), exp_strand)
+        ctx.eq("antisense_on_same_parent_object:sequence", str(anti.extract_sequence()), rm.seq_image(seqs[d], rm.positions([b0], rm.flip(C["strand"])), rm.flip(C["strand"])))
+        ctx.label("antisense_on_same_parent_object")
     # interval objects (features, transcripts) built on the lowest level lift like their location
     if spec.get("no_chunk_level") and not rm.has_self_overlap(C["blocks"]) and all(b[1] > b[0] for b in C["blocks"]):
         from inscripta.biocantor.gene.feature import FeatureInterval
@@ -234,6 +248,18 @@ def check_chunk(spec, ctx):
         ctx.eq("chunk_sequence_letters", sorted(str(lifted.extract_sequence())), sorted(rm.seq_image(G, inside, L["strand"])))
     else:
         ctx.eq("chunk_sequence", str(lifted.extract_sequence()), rm.seq_image(G, inside, L["strand"]))
+    if not overlapping and not any(b[1] == b[0] for b in bl) and not tied:
+        from inscripta.biocantor.gene.feature import FeatureInterval
+        from inscripta.biocantor.gene.transcript import TranscriptInterval
+        for cname, cls in (("feature", FeatureInterval), ("transcript", TranscriptInterval)):
+            try:
+                X = cls.from_chunk_relative_location(lifted)
+            except (BioCantorException, ValueError) as e:
+                ctx.fail(cname + ":from_chunk_relative_location_raises", repr(e)[:120])
+                continue
+            ctx.eq(cname + ":from_chunk_relative_location:chromosome_positions", rm.loc_positions(X.chromosome_location), inside)
+            ctx.eq(cname + ":from_chunk_relative_location:chromosome_strand", X.strand.to_symbol(), L["strand"])
+            ctx.eq(cname + ":from_chunk_relative_location:spliced_sequence", str(X.get_spliced_sequence()), rm.seq_image(G, inside, L["strand"]))
     ctx.true("chunk_has_chunk_ancestor", lifted.has_ancestor_of_type("sequence_chunk") and lifted.has_ancestor_of_type("chromosome"))
     back = lifted.lift_over_to_first_ancestor_of_type("chromosome")
     ctx.eq("chunk_roundtrip_positions", od(rm.loc_positions(back)), od(inside))
